@@ -411,7 +411,7 @@ func selectVal(idx *Term, lo int, vals []Value) Value {
 	}
 	for _, v := range vals[1:] {
 		if !valIdentical(vals[0], v) {
-			panic(unsupported(fmt.Sprintf("symbolic index into cells of kind %T that differ", vals[0])))
+			panic(symIndexFail{fmt.Sprintf("%T", vals[0])})
 		}
 	}
 	return vals[0]
@@ -557,4 +557,21 @@ func hasSym(p []PathElem) bool {
 		}
 	}
 	return false
+}
+
+type symIndexFail struct{ kind string }
+
+// tryLoad loads through p; ok=false if a symbolic index would have to select
+// among cells that cannot be merged (pointers, slices of different shape).
+func (st *State) tryLoad(p PtrV) (v Value, ok bool) {
+	defer func() {
+		if r := recover(); r != nil {
+			if _, is := r.(symIndexFail); is {
+				ok = false
+				return
+			}
+			panic(r)
+		}
+	}()
+	return st.Load(p), true
 }
